@@ -1,1 +1,349 @@
-//! c10_task (ntpd): not implemented yet.
+//! C10 (daemon level, group gs): every datagram the REAL source task puts on the wire carries a
+//! poll exponent within [min, max(max, server-requested)], and the duration the task hands to
+//! its poll timer after sending with exponent p lies in [1.01, 1.05] * 2^p s — exactly once per
+//! poll. Two parts:
+//!  * part M (manual timer): the shared exploration of `c11_task.rs` with the alphabet that
+//!    moves the poll interval (RATE, NTPv5 answers asking for max+2, valid, none);
+//!  * part S (real `tokio::time::Sleep`): `SourceTask::spawn` — the production entry point, with
+//!    its handling of the initial actions and the real `impl Wait for Sleep` — on a paused
+//!    clock. The harness advances virtual time to just below 1.01 * 2^p after a poll and checks
+//!    that the task's timer branch has NOT run, then to just above 1.05 * 2^p and checks that it
+//!    has; the first poll must leave at virtual time 0 (initial `SetTimer(0)`).
+#![allow(dead_code)]
+
+use std::collections::HashMap;
+use std::net::SocketAddr;
+use std::sync::atomic::{AtomicU32, Ordering};
+use std::sync::{Arc, Mutex, RwLock};
+use std::time::Duration;
+
+use ntp_proto::{
+    ClockId, NtpManager, ObservableSourceState, PollInterval, PollIntervalLimits, ProtocolVersion,
+    SourceConfig, SynchronizationConfig,
+};
+
+use super::c11_task::{self as rig, Case, Cfg, Io, Kind, MsgKind, Plan, Sym, Ts, Ver, Worker, cfg};
+use super::common::{self, Ctx};
+use crate::daemon::config::TimestampMode;
+use crate::daemon::ntp_source::{SourceChannels, SourceTask};
+
+fn replay(ctx: &Ctx, trace: &str) -> String {
+    if let Some(t) = trace.strip_prefix("S;") {
+        let Some(case) = Case::parse(t) else {
+            return format!("unparsable trace {trace:?}");
+        };
+        let mut w = match Worker::new() {
+            Ok(w) => w,
+            Err(e) => return format!("worker: {e}"),
+        };
+        let o = spawn_case(&mut w, &case);
+        judge_spawn(ctx, &case, &o);
+        return o.text;
+    }
+    rig::replay_case(ctx, "C10", trace)
+}
+
+// ---------------------------------------------------------------------------------------
+// part S: SourceTask::spawn with the real Sleep
+// ---------------------------------------------------------------------------------------
+
+#[derive(Default, Debug)]
+struct SpawnObs {
+    /// per poll: (exponent on the wire, timer branch ran before 1.01*2^p - 1 ms, ran by 1.05*2^p + 1 ms)
+    polls: Vec<(i8, bool, bool)>,
+    /// virtual time at which the first request was seen
+    first_at: Option<Duration>,
+    msgs: Vec<MsgKind>,
+    finished: bool,
+    problem: Option<String>,
+    text: String,
+}
+
+async fn rounds(n: usize) {
+    for _ in 0..n {
+        tokio::task::yield_now().await;
+    }
+}
+
+async fn spawn_drive(io: &mut Io, case: &Case) -> SpawnObs {
+    let mut o = SpawnObs::default();
+    let mut buf = [0u8; 2048];
+    for sock in [&io.server, &io.alt_ip, &io.alt_port] {
+        while sock.recv_from(&mut buf).is_ok() {}
+    }
+    let c = case.cfg;
+    let limits = PollIntervalLimits {
+        min: PollInterval::from_byte(c.min as u8),
+        max: PollInterval::from_byte(c.max as u8),
+    };
+    let source_config = SourceConfig { poll_interval_limits: limits, initial_poll_interval: limits.min };
+    let pv = match c.ver {
+        Ver::V4 => ProtocolVersion::V4,
+        Ver::V5 => ProtocolVersion::V5,
+        Ver::Auto => ProtocolVersion::v4_upgrading_to_v5_with_default_tries(),
+    };
+    let index = ClockId::new();
+    let rec = Arc::new(Mutex::new(rig::Rec::default()));
+    let clock = Arc::new(AtomicU32::new(0));
+    let snaps: Arc<RwLock<HashMap<ClockId, ObservableSourceState>>> = Arc::new(RwLock::new(HashMap::new()));
+    let (tx, mut rx) = tokio::sync::mpsc::channel(32);
+    let manager = NtpManager::new(SynchronizationConfig::default(), Arc::new([]));
+    let (source, initial) =
+        manager.new_source(io.server_addr, source_config, pv, rig::rec_ctl(rec.clone(), limits.min), None, index);
+    let start = tokio::time::Instant::now();
+    let timer0 = io.log.timer.load(Ordering::SeqCst);
+    // the production entry point
+    let join = SourceTask::spawn(
+        index,
+        "verif".to_string(),
+        io.server_addr,
+        None,
+        rig::SeqClock(clock.clone()),
+        match c.ts {
+            Ts::Sw => TimestampMode::Software,
+            Ts::Kr => TimestampMode::KernelRecv,
+            Ts::Ka => TimestampMode::KernelAll,
+        },
+        SourceChannels { msg_for_system_sender: tx, source_snapshots: snaps.clone() },
+        source,
+        initial,
+    );
+    let dead = rig::deadman();
+    let total = case.script.len() + rig::TAIL;
+    let mut timer_seen = timer0;
+    'polls: for i in 0..total {
+        let sym = case.script.get(i).copied().unwrap_or(Sym::N);
+        // the timer branch must have run once more (i == 0: at virtual time 0, without any advance)
+        let t0 = std::time::Instant::now();
+        let mut n = 0u32;
+        let req = loop {
+            tokio::task::yield_now().await;
+            match io.server.recv_from(&mut buf) {
+                Ok((len, from)) => {
+                    if let Some(r) = rig::parse_req(&buf[..len], from, 0) {
+                        break Some(r);
+                    }
+                }
+                Err(_) => {}
+            }
+            while let Ok(m) = rx.try_recv() {
+                o.msgs.push(rig::msg_kind(&m, index));
+            }
+            if !o.msgs.is_empty() || join.is_finished() {
+                break None;
+            }
+            n += 1;
+            rig::backoff(n);
+            if t0.elapsed() > dead {
+                o.problem = Some(format!("poll #{}: timer ran but no datagram, no message", i + 1));
+                break None;
+            }
+        };
+        let Some(req) = req else { break 'polls };
+        if i == 0 {
+            o.first_at = Some(tokio::time::Instant::now().duration_since(start));
+        }
+        timer_seen += 1;
+        if io.log.timer.load(Ordering::SeqCst) != timer_seen {
+            o.problem = Some(format!(
+                "poll #{}: {} timer events, expected {}",
+                i + 1,
+                io.log.timer.load(Ordering::SeqCst) - timer0,
+                timer_seen - timer0
+            ));
+            break;
+        }
+        // scripted answer + sentinel
+        let kind = match sym {
+            Sym::V => Some(Kind::Valid),
+            Sym::R => Some(Kind::Rate),
+            Sym::D => Some(Kind::Deny),
+            Sym::Q => Some(Kind::ValidAsking(c.max.saturating_add(2))),
+            _ => None,
+        };
+        if let Some(k) = kind {
+            let serial = io.next_serial();
+            let _ = io.server.send_to(&rig::build_answer(&req, k, serial), req.from);
+        }
+        let (size, before) = match io.send_sentinel(req.from) {
+            Ok(x) => x,
+            Err(e) => {
+                o.problem = Some(e);
+                break;
+            }
+        };
+        let t0 = std::time::Instant::now();
+        let mut n = 0u32;
+        while !io.sentinel_seen(size, before) {
+            tokio::task::yield_now().await;
+            n += 1;
+            rig::backoff(n);
+            if t0.elapsed() > dead || join.is_finished() {
+                o.problem = Some(format!("poll #{}: sentinel never consumed", i + 1));
+                break 'polls;
+            }
+        }
+        // the real Sleep: not before 1.01 * 2^p, not after 1.05 * 2^p
+        let unit = rig::two_pow_ns(req.poll);
+        let lo = Duration::from_nanos((unit * 101 / 100) as u64);
+        let hi = Duration::from_nanos((unit * 105 / 100) as u64);
+        let ms = Duration::from_millis(1);
+        tokio::time::advance(lo - ms).await;
+        rounds(8).await;
+        let early = io.log.timer.load(Ordering::SeqCst) != timer_seen;
+        let mut fired = early;
+        if !early {
+            tokio::time::advance(hi - lo + ms + ms).await;
+            rounds(8).await;
+            fired = io.log.timer.load(Ordering::SeqCst) != timer_seen;
+        }
+        o.polls.push((req.poll, early, fired));
+        if !fired {
+            // it will never come within the statement's bound; do not wait for it
+            break;
+        }
+    }
+    while let Ok(m) = rx.try_recv() {
+        o.msgs.push(rig::msg_kind(&m, index));
+    }
+    rounds(4).await;
+    o.finished = join.is_finished();
+    join.abort();
+    rounds(4).await;
+    o.text = format!(
+        "S;{} => first@{:?} polls {:?} msgs {:?} finished {} {}",
+        case.trace(),
+        o.first_at,
+        o.polls,
+        o.msgs.iter().map(|m| format!("{m:?}")).collect::<Vec<_>>(),
+        o.finished,
+        o.problem.clone().unwrap_or_default()
+    );
+    o
+}
+
+fn spawn_case(w: &mut Worker, case: &Case) -> SpawnObs {
+    let Worker { rt, io, .. } = w;
+    rt.block_on(spawn_drive(io, case))
+}
+
+fn judge_spawn(ctx: &Ctx, case: &Case, o: &SpawnObs) {
+    let trace = format!("S;{}", case.trace());
+    if let Some(p) = &o.problem {
+        ctx.violation("C10:task-spawn-irregular", format!("{p} [{}]", o.text), trace.clone());
+        return;
+    }
+    match o.first_at {
+        Some(d) if d.is_zero() => ctx.inc("spawn.first_poll_at_time_zero"),
+        Some(d) => ctx.violation(
+            "C10:task-spawn-first-poll-delayed",
+            format!("first poll left at virtual time {d:?}, the initial action is SetTimer(0) [{}]", o.text),
+            trace.clone(),
+        ),
+        None => ctx.violation("C10:task-spawn-no-first-poll", o.text.clone(), trace.clone()),
+    }
+    for (i, (p, early, fired)) in o.polls.iter().enumerate() {
+        if *early {
+            ctx.violation(
+                "C10:task-sleep-fires-early",
+                format!("poll #{} exponent {p}: the timer branch ran before 1.01*2^{p} s - 1 ms [{}]", i + 1, o.text),
+                trace.clone(),
+            );
+        } else if !*fired {
+            ctx.violation(
+                "C10:task-sleep-fires-late",
+                format!("poll #{} exponent {p}: the timer branch had not run at 1.05*2^{p} s + 1 ms [{}]", i + 1, o.text),
+                trace.clone(),
+            );
+        } else {
+            ctx.inc("spawn.sleep_in_range");
+        }
+    }
+    if o.msgs.len() == 1 && o.finished {
+        ctx.inc("spawn.ended_with_one_report");
+    } else {
+        ctx.violation(
+            "C10:task-spawn-no-clean-end",
+            format!("after {} silent polls: messages {:?}, finished {} [{}]", rig::TAIL, o.msgs, o.finished, o.text),
+            trace,
+        );
+    }
+}
+
+fn part_s(ctx: &Ctx) {
+    let quick = ctx.quick();
+    let mut plans: Vec<Plan> = Vec::new();
+    let len = if quick { 3 } else { 5 };
+    plans.push(Plan { cfg: cfg(Ver::V4, 4, 10, Ts::Kr), alphabet: vec![Sym::N, Sym::V, Sym::R], len });
+    plans.push(Plan { cfg: cfg(Ver::V4, 4, 4, Ts::Ka), alphabet: vec![Sym::N, Sym::V, Sym::R], len: len - 1 });
+    plans.push(Plan { cfg: cfg(Ver::V5, 4, 6, Ts::Sw), alphabet: vec![Sym::N, Sym::V, Sym::R, Sym::Q], len: len - 1 });
+    plans.push(Plan { cfg: cfg(Ver::Auto, 0, 17, Ts::Kr), alphabet: vec![Sym::N, Sym::V, Sym::R], len: len - 1 });
+    let mut offsets = Vec::new();
+    let mut total = 0u64;
+    for p in &plans {
+        offsets.push(total);
+        total += common::pow(p.alphabet.len(), p.len);
+    }
+    ctx.set("spawn.cases_planned", total);
+    common::par_for_with(
+        total,
+        2,
+        || Worker::new().ok(),
+        |w, idx| {
+            let Some(w) = w.as_mut() else {
+                ctx.inc("cases_not_run");
+                return;
+            };
+            let pi = offsets.partition_point(|o| *o <= idx) - 1;
+            let plan = &plans[pi];
+            let word = common::word_of(idx - offsets[pi], plan.alphabet.len(), plan.len);
+            let case = Case { cfg: plan.cfg, script: word.iter().map(|i| plan.alphabet[*i]).collect() };
+            let o = spawn_case(w, &case);
+            ctx.inc("spawn.cases");
+            ctx.inc("evaluations");
+            ctx.add("transitions", o.polls.len() as u64 * 3);
+            ctx.add("spawn.polls", o.polls.len() as u64);
+            ctx.distinct(common::hash_of(&o.text));
+            if idx % 29 == 0 {
+                ctx.sample(o.text.clone());
+            }
+            judge_spawn(ctx, &case, &o);
+        },
+    );
+}
+
+#[test]
+fn check() {
+    let ctx = Ctx::new("C10");
+    if let Some(t) = common::replay_trace() {
+        let a = replay(&ctx, &t);
+        let b = replay(&ctx, &t);
+        common::report_replay("C10", &a, &b, ctx.violation_count() > 0);
+        return;
+    }
+    ctx.rule("part M: every script of exactly n poll reactions over {N none, V valid, R RATE, Q (v5) valid asking for max+2, D DENY, U unknown KISS} against the real SourceTask::run with a harness-fired timer, for poll limits {4-10 default, 4-4, 4-6, 0-17, 6-6, 10-17}; part S: scripts over {N, V, R, Q} against SourceTask::spawn with the real Sleep on a paused clock; distinct = canonical observation differs");
+    rig::common_assumptions(&ctx);
+    ctx.assume("part S decides 'the timer branch has not run' 8 scheduler rounds after virtual time was advanced to 1 ms below the bound: a tokio timer that is due is woken by the advance itself, no network is involved");
+    let quick = ctx.quick();
+    let alpha = vec![Sym::N, Sym::V, Sym::R, Sym::Q, Sym::D, Sym::U];
+    let len = if quick { 5 } else { 7 };
+    let mut plans = Vec::new();
+    for (c, l) in [
+        (cfg(Ver::V4, 4, 10, Ts::Kr), len + 1),
+        (cfg(Ver::V4, 4, 4, Ts::Sw), len),
+        (cfg(Ver::V4, 4, 6, Ts::Ka), len),
+        (cfg(Ver::V4, 0, 17, Ts::Sw), len),
+        (cfg(Ver::V4, 10, 17, Ts::Sw), len),
+        (cfg(Ver::V5, 4, 10, Ts::Kr), if quick { len + 1 } else { len }),
+        (cfg(Ver::V5, 6, 6, Ts::Sw), len),
+        (cfg(Ver::V5, 4, 6, Ts::Sw), len),
+        (cfg(Ver::Auto, 4, 10, Ts::Ka), len),
+    ] {
+        plans.push(Plan { cfg: c, alphabet: alpha.iter().copied().filter(|s| s.applies(c.ver)).collect(), len: l });
+    }
+    // the whole RATE ladder 4 -> 10 and past it
+    plans.push(Plan { cfg: cfg(Ver::V4, 4, 10, Ts::Sw), alphabet: vec![Sym::R, Sym::V], len: if quick { 9 } else { 12 } });
+    rig::explore(&ctx, "C10", &plans);
+    part_s(&ctx);
+    ctx.finish();
+}
